@@ -5,6 +5,7 @@ import (
 	"go/types"
 	"strings"
 
+	"verif/tools/internal/core"
 	"verif/tools/internal/ir"
 )
 
@@ -50,9 +51,11 @@ func checkC10(c *Ctx) {
 		callee, _ = app.Fun.(*ir.FuncRef)
 	}
 	if callee == nil || callee.Key != cmpPath+".Equal" || len(app.Args) < 2 {
-		r.Undecided("C10.a", "frt.OpEqual", "closed-form", pos, "OpEqual is not a direct call of cmp.Equal: "+nfs+" (any other implementation is undecided)")
+		r.Undecided("C10.a", "frt.OpEqual", "closed-form", pos, "OpEqual is not a direct call of cmp.Equal: "+nfs+" (any other implementation — fast paths, extra branches — is undecided: totality then depends on run-time shapes)")
+		checkC10Rest(c, m, prog, n, pp)
 		return
 	}
+	defer checkC10Rest(c, m, prog, n, pp)
 	a0, a1 := ir.String(pp, app.Args[0]), ir.String(pp, app.Args[1])
 	r.Check(a0 == "p0" && a1 == "p1", "C10.a", "frt.OpEqual", "operands", pos, "cmp.Equal(p0, p1, …): operands in order", "operands of cmp.Equal are ("+a0+", "+a1+"), expected (p0, p1)")
 
@@ -134,6 +137,10 @@ func checkC10(c *Ctx) {
 		r.Bad("C10.a", "frt.OpEqual", "missing EquateEmpty", pos, "cmp.Equal is called without cmpopts.EquateEmpty: []T(nil) = []T{} is false although both are the empty slice")
 	}
 
+}
+
+func checkC10Rest(c *Ctx, m *core.Module, prog *ir.Program, n *ir.Normalizer, pp string) {
+	r := c.R
 	// C10.b
 	if ne, ok := prog.ByName["OpNotEqual"]; ok {
 		s := ir.String(pp, n.Func(ne))
